@@ -39,7 +39,28 @@ func mkSeq(gids []glyph.ID, gd *gdef.Table, gpos bool) []glyph.Info {
 		seq[i] = glyph.Info{GID: g, Text: []rune{rune(0x100 + i)}}
 		if gpos && gd.GlyphClass[g] != gdef.GlyphClassMark {
 			seq[i].Advance = funit.Int16(200 + 37*(int(g)%11))
+		} else if gpos && g%3 == 0 {
+			// a spacing mark: attachment offsets must account for the
+			// advances of everything between the base and the mark
+			seq[i].Advance = funit.Int16(30 + 7*(int(g)%5))
 		}
+	}
+	return seq
+}
+
+// shareText rewrites the Text fields as adjacent windows into one rune
+// array, the way a caller that decodes a whole string produces them: each
+// window then has spare capacity reaching into its neighbours' text.
+func shareText(seq []glyph.Info) []glyph.Info {
+	var all []rune
+	for _, g := range seq {
+		all = append(all, g.Text...)
+	}
+	pos := 0
+	for i := range seq {
+		n := len(seq[i].Text)
+		seq[i].Text = all[pos : pos+n]
+		pos += n
 	}
 	return seq
 }
@@ -78,6 +99,12 @@ func (c *listCase) String() string {
 // compare runs both implementations on one sequence.
 func (c *listCase) compare(gids []glyph.ID) error {
 	in := mkSeq(gids, c.env.Gdef, c.gpos)
+	if len(gids)%2 == 0 {
+		// every other length: Text windows into a shared array (see C06's
+		// "attached text": a ligature must not write into its neighbours)
+		in = shareText(in)
+		stats.Label("shaping", "shared-text-array")
+	}
 	model := refshape.Apply(c.res.List, c.env.Gdef, c.order, mkSeq(gids, c.env.Gdef, c.gpos))
 	c.applied++
 	if len(model.Undefined) > 0 {
